@@ -12,8 +12,8 @@ EXTENDS Regexp, RegexpUniverses, Json
 
 CONSTANTS Part, NParts, CandLen
 
-VARIABLES di, dd, dp, s, parsed, fixed, cand
-vars == <<di, dd, dp, s, parsed, fixed, cand>>
+VARIABLES di, dd, dp, s, parsed, fixed, cand, like
+vars == <<di, dd, dp, s, parsed, fixed, cand, like>>
 
 USeq == SetToSeq(U_C18)
 ASSUME Part = 0 => PrintT(<<"UNIV", ToJson(USeq)>>)
@@ -22,6 +22,19 @@ ASSUME Part = 0 => PrintT(<<"UNIV", ToJson(USeq)>>)
 CandOf(d, x) == {SubSeq(x, 1, Len(x) - 1), x \o <<MinOf(d.alpha)>>}
                 \cup {[x EXCEPT ![k] = b] : k \in {j \in 1..Len(x) : j <= CandLen}, b \in d.alpha}
                 \cup {[x EXCEPT ![k] = x[k + 1], ![k + 1] = x[k]] : k \in {j \in 1..(Len(x) - 1) : j <= CandLen}}      \* two neighbours swapped
+\* placeholders with an expression of their own, for ONE byte-string field left open: pieces of the value parsed from s
+\* (so that the packet parsed from s satisfies them) - its first / last / an inner byte, the whole value
+\* (byte strings that do NOT keep their delimiter: where the delimiter is part of the value the library pastes the
+\* placeholder's expression IN FRONT of the delimiter, so bytes the two have in common are demanded twice - noted in
+\* DESIGN.md, not modelled)
+DataNames(fs) == {fs[i].name : i \in {j \in 1..Len(fs) : fs[j].k = "Data" /\
+                                   (fs[j].size.m \in {"const", "field", "expr"} \/ (fs[j].size.m = "marker" /\ ~fs[j].size.incl))}}
+LikesOf(vals, n) ==
+    LET x == Lookup(vals, n).b IN
+    IF Len(x) = 0 THEN {}
+    ELSE {[n |-> n, kind |-> "starts", b |-> <<x[1]>>], [n |-> n, kind |-> "ends", b |-> <<x[Len(x)]>>],
+          [n |-> n, kind |-> "contains", b |-> <<x[(Len(x) + 1) \div 2]>>], [n |-> n, kind |-> "starts", b |-> x],
+          [n |-> n, kind |-> "ends", b |-> x]}
 ValueNames(fs) == {fs[i].name : i \in {j \in 1..Len(fs) : fs[j].k \in {"Int", "Data", "Bits"}}}
 
 Init == LET us == USeq IN
@@ -31,13 +44,17 @@ Init == LET us == USeq IN
             /\ \E x \in Strings(d.alpha, d.maxlen) :
                   LET r == DoUnpack(DescribeProg(d.prog), "C0", x, <<>>) IN r.ok /\ s = x /\ parsed = r.vals
             /\ fixed \in SUBSET ValueNames(d.prog["C0"].fields)
+            /\ like \in {[n |-> "", kind |-> "none", b |-> <<>>]}
+                       \cup (IF fixed # {} THEN {}      \* (placeholders with an expression: next to plain Any everywhere else)
+                             ELSE UNION {LikesOf(parsed, n) : n \in {x \in DataNames(d.prog["C0"].fields) : HasVal(parsed, x)}})
             /\ cand \in CandOf(d, s)
 Next == UNCHANGED vars
 Spec == Init /\ [][Next]_vars
 
 DP == dp
 Parsed == parsed
-Pattern == [i \in 1..Len(Parsed) |-> [n |-> Parsed[i].n, lit |-> Parsed[i].n \in fixed, v |-> Parsed[i].v]]
+Pattern == [i \in 1..Len(Parsed) |-> [n |-> Parsed[i].n, lit |-> Parsed[i].n \in fixed, v |-> Parsed[i].v,
+                                        like |-> IF like.n = Parsed[i].n THEN [kind |-> like.kind, b |-> like.b] ELSE NoLike]]
 Tokens == Render(dd.prog, "C0", Pattern)
 AnyEqUsed == \E i \in 1..Len(dd.prog["C0"].fields) :
                 LET f == dd.prog["C0"].fields[i] IN
